@@ -55,8 +55,9 @@ structure Cfg where
   maxEventSize : Int := 4096
   oldestEvent : Int := 31536000
   validKinds : List Int := []
-  whitelist : List (List Nat) := []
-  blacklist : List (List Nat) := []
+  /-- `none` = the option is not set (`None`): the membership test raises TypeError, which refuses -/
+  whitelist : Option (List (List Nat)) := none
+  blacklist : Option (List (List Nat)) := none
   requirePow : Int := 0
   hellthreadLimit : Int := 0
   servicePubkey : List Nat := []
@@ -80,8 +81,14 @@ def isRecent (c : Cfg) (now : Int) (e : Ev) : Verdict :=
   else .ok
 
 def isCertainKind (c : Cfg) (e : Ev) : Verdict := if c.validKinds.contains e.kind then .ok else .reject
-def isAuthorWhitelisted (c : Cfg) (e : Ev) : Verdict := if c.whitelist.contains e.pubkey then .ok else .reject
-def isAuthorBlacklisted (c : Cfg) (e : Ev) : Verdict := if c.blacklist.contains e.pubkey then .reject else .ok
+def isAuthorWhitelisted (c : Cfg) (e : Ev) : Verdict :=
+  match c.whitelist with
+  | none => .raises
+  | some l => if l.contains e.pubkey then .ok else .reject
+def isAuthorBlacklisted (c : Cfg) (e : Ev) : Verdict :=
+  match c.blacklist with
+  | none => .raises
+  | some l => if l.contains e.pubkey then .reject else .ok
 def isPow (c : Cfg) (e : Ev) : Verdict := if 256 - e.idBitLength < c.requirePow then .reject else .ok
 
 def isNotHellthread (c : Cfg) (e : Ev) : Verdict :=
